@@ -66,7 +66,14 @@ impl<'a> Parser<'a> {
     /// Parse the regex and return an expression (AST) and a bit set with the indexes of groups
     /// that are referenced by backrefs.
     pub(crate) fn parse(re: &str) -> Result<ExprTree> {
+        Self::parse_with_flags(re, false)
+    }
+
+    /// Like `parse`, but the pattern can start out case-insensitive, as if it was prefixed with
+    /// `(?i)`.
+    pub(crate) fn parse_with_flags(re: &str, case_insensitive: bool) -> Result<ExprTree> {
         let mut p = Parser::new(re);
+        p.update_flag(FLAG_CASEI, !case_insensitive);
         let (ix, expr) = p.parse_re(0, 0)?;
         if ix < re.len() {
             return Err(Error::ParseError(
